@@ -79,7 +79,12 @@ class _Ctx:
         self.parent = parent
 
     def target(self, kind):
-        return self._t[kind]()
+        c = self
+        while c is not None:
+            if kind in c._t:
+                return c._t[kind]()
+            c = c.parent
+        raise KeyError(kind)
 
 
 class CFG:
@@ -125,6 +130,7 @@ class CFG:
             "raise": lambda: self.raise_exit,
             "break": self._bad_jump,
             "continue": self._bad_jump,
+            "ijump": self._bad_jump,
         })
         if isinstance(fn, ast.Lambda):
             ret = ast.Return(value=fn.body)
@@ -265,19 +271,16 @@ class CFG:
             # body of an inlined helper: its returns (InlineJump) continue after the block
             out = self._seq(st.prologue, frontier, ctx)
             join = self._new("join", st, note="inline-after")
-            ictx = _Ctx({
-                "return": lambda: join,
-                "raise": lambda: ctx.target("raise"),
-                "break": self._bad_jump,
-                "continue": self._bad_jump,
-            }, ctx)
+            # only the helper's own returns (InlineJump) end at the block; a real return / break / continue inside the block belongs to
+            # the enclosing function (code of the caller threaded into the block)
+            ictx = _Ctx({"ijump": lambda: join}, ctx)
             out = self._seq(st.body, out, ictx)
             self._connect(out, join)
             return self._seq(st.epilogue, [join], ctx)
         if isinstance(st, InlineJump):
             n = self._new("stmt", st, note="inline-return")
             self._connect(frontier, n)
-            self._edge(n, ctx.target("return"))
+            self._edge(n, ctx.target("ijump"))
             return []
         raise AnalysisError(
             f"statement kind {type(st).__name__} at line {st.lineno} of {self.name} not modelled")
@@ -308,7 +311,7 @@ class CFG:
                         self._connect(out, ctx.target(kind))
                     return memo[kind]
                 return get
-            inner = _Ctx({k: via_finally(k) for k in ("return", "raise", "break", "continue")}, ctx)
+            inner = _Ctx({k: via_finally(k) for k in ("return", "raise", "break", "continue", "ijump")}, ctx)
         else:
             inner = ctx
 
